@@ -98,9 +98,15 @@ HIST_TIERS = {
 }
 
 
+CHUNK_TIMEOUT_S = 900
+
+
 def run_chunk(binary, args, out, inflight):
     cmd = [binary] + args + ["--out", out, "--inflight", inflight]
-    r = subprocess.run(cmd, stdout=subprocess.PIPE, stderr=subprocess.STDOUT, text=True)
+    try:
+        r = subprocess.run(cmd, stdout=subprocess.PIPE, stderr=subprocess.STDOUT, text=True, errors="replace", timeout=CHUNK_TIMEOUT_S)
+    except subprocess.TimeoutExpired:
+        return "timeout after %ds" % CHUNK_TIMEOUT_S, ""
     return r.returncode, r.stdout
 
 
